@@ -189,13 +189,23 @@ func probeDur(p durArg) (string, string) {
 }
 
 type timeArg struct {
-	Sec    int64 `json:"unix_sec"`
-	Nsec   int64 `json:"nsec"`
-	Offset int   `json:"zone_offset_s"`
+	Sec    int64  `json:"unix_sec"`
+	Nsec   int64  `json:"nsec"`
+	Offset int    `json:"zone_offset_s"`
+	Named  string `json:"named_zone,omitempty"` // if set, a zone from the embedded database is used instead of the fixed offset
 }
 
 func probeFromTime(p timeArg) (string, string) {
 	t := time.Unix(p.Sec, p.Nsec).In(time.FixedZone("z", p.Offset))
+	if p.Named != "" {
+		loc, err := time.LoadLocation(p.Named)
+		if err != nil {
+			return "", ""
+		}
+		t = time.Unix(p.Sec, p.Nsec).In(loc)
+		_, off := t.Zone() // the offset in force at that instant (taken from the zone database; the date arithmetic below is the oracle's)
+		p.Offset = off
+	}
 	if t.IsZero() {
 		return "", "" // the statement speaks about non-zero times only
 	}
@@ -422,12 +432,28 @@ func main() {
 					for _, dl := range [][2]int64{{0, 0}, {0, 1}, {-1, 999999999}, {1, 0}, {-1, 0}, {43200, 0}} {
 						w.Point()
 						w.NonTrivial()
-						pTime.Do(w, timeArg{base + dl[0], dl[1], off})
+						pTime.Do(w, timeArg{Sec: base + dl[0], Nsec: dl[1], Offset: off})
 					}
 				}
 				w.Outcome("fromtime grid")
 			})
 		})
-		r.Sample("fromtime", timeArg{1704067199, 999999999, 5 * 3600})
+		r.Sample("fromtime", timeArg{Sec: 1704067199, Nsec: 999999999, Offset: 5 * 3600})
+		r.Phase("FromTime/Scan in named zones with DST and calendar skips: every day of 1990-2030 at UTC midnight and local midnight +- {0,1ns,1s,1h,12h}", "complete grid", func() {
+			zs := append([]string{"Europe/London", "Australia/Lord_Howe", "Asia/Kathmandu", "America/St_Johns"}, mc.Zones...)
+			r.Parallel(int64(len(zs))*41, 1, func(w *mc.W, i int64) {
+				z := zs[i/41]
+				y := 1990 + i%41
+				for m := 1; m <= 12; m++ {
+					for d := 1; d <= oracle.DaysIn(y, m); d++ {
+						utcMid := (oracle.Ordinal(y, m, d) - unixEpochOrdinal) * 86400
+						for _, dl := range [][2]int64{{0, 0}, {0, 1}, {-1, 999999999}, {1, 0}, {3600, 0}, {-3600, 0}, {43200, 0}, {-43200, 0}, {50400, 0}, {-39600, 0}} {
+							w.Point()
+							pTime.Do(w, timeArg{Sec: utcMid + dl[0], Nsec: dl[1], Named: z})
+						}
+					}
+				}
+			})
+		})
 	})
 }
